@@ -113,11 +113,24 @@ def carrier(fn, e, is_source, out_param_ok=None, accessor_ok=None, depth=0, seen
                 if not ok:
                     return False, why
                 any_def = True
+            elif kind == "out-param" and isinstance(rhs, dict) and rhs.get("k") == "call" and short(rhs.get("name") or "") == "swap" and rhs.get("this") is not None \
+                    and any(fmt(ir.unwrap(a0)) == name for a0 in rhs.get("args", [])):
+                any_def = True  # `member.swap(local)`: the local is handed over as a whole
             elif kind == "out-param":
                 if out_param_ok is not None and out_param_ok(rhs, name):
                     any_def = True
                     continue
                 return False, "local %s is modified by %s" % (name, fmt(rhs))
+            elif kind in ("method", "out-param", "other") and isinstance(node, dict) and node.get("k") == "call" and short(node.get("name") or "") == "swap" and node.get("this") is not None \
+                    and any(fmt(ir.unwrap(a0)) == name for a0 in node.get("args", [])):
+                # `member.swap(local)`: the local is handed over as a whole (what it receives in exchange is not read again - checked by the caller's rule)
+                any_def = True
+            elif kind == "method" and isinstance(node, dict) and node.get("k") == "call" and short(node.get("name") or "") in ("push_back", "emplace_back") and len(node.get("args", [])) == 1:
+                # a local list that collects pieces before they are committed in one step: every piece appended is a carrier itself
+                ok, why = carrier(fn, node["args"][0], is_source, out_param_ok, accessor_ok, depth + 1, seen)
+                if not ok:
+                    return False, why
+                any_def = True
             else:
                 return False, "local %s is modified by %s" % (name, fmt(node))
         if not any_def:
